@@ -110,9 +110,21 @@ fn exec_ops(c: &Case) -> Vec<i128> {
 
 impl Property for P {
     type Case = Case;
-    fn fixed(_tier: &str) -> Vec<Case> {
+    fn fixed(tier: &str) -> Vec<Case> {
         use Op::*;
         let mut v = Vec::new();
+        if tier == "thorough" {
+            // the quantifier of the property taken literally: EVERY schedule of up to 6 steps over the five
+            // protocol operations (contains both known schedules and every shorter prefix), on real channels
+            let base = [CSend, CRenew, SRecv, SWrite, CRecv];
+            for len in 1..=6u32 {
+                for mut code in 0..5u32.pow(len) {
+                    let mut ops = Vec::new();
+                    for _ in 0..len { ops.push(base[(code % 5) as usize]); code /= 5; }
+                    v.push(Case { ops, mode: (len % 2) as u8, policy: 0 });
+                }
+            }
+        }
         for (mode, policy) in [(0u8, 0u8), (1, 0), (0, 1), (1, 2)] {
             // quiescent renewal
             v.push(Case { ops: vec![CSend, SRecv, SWrite, CRecv, CRenew, SRecv, SWrite, CRecv, CSend, SRecv, SWrite, CRecv], mode, policy });
